@@ -1,4 +1,5 @@
 import CnlProofs.Native
+import CnlProofs.NativeScale
 import CnlProofs.Kernels
 /-!
 # C12 — wrapping is transparent
@@ -31,10 +32,25 @@ together); `kernel_mixadd` needs the operands in range of `T` and `2^|e2-e1|` re
 `W` holds every product (`HoldsProducts`: twice the digits of `T`, plus one if `T` is signed — true
 of i8/i16, i16/i32, i32/i64, u16/u32) resp. every sum (`HoldsSums`) of two values of `T`, the
 kernels are never undefined and return exactly `l·r`, `l+r`, `l·l`.
+
+**Exponent-changing operations** (`*_exponents_transparent`, `scale_transparent`).  A scaled_integer whose
+representation is a nest `ws` of `overflow_integer<_, native_overflow_tag>` / `rounding_integer<_,
+native_rounding_tag>` layers (`Wrappers ws`; any depth, any order) aligns exponents with `cnl::scale<k>` *of
+the wrapper* (`overflow_integer.h`, `rounding_integer.h`: `default_scale` through the wrapper's own operators and
+`power_value` of a class type).  `scale_transparent`: that is `scale<k>` of the innermost integer, re-wrapped —
+value, promoted type, undefined cases.  Hence `+ - * / % & | ^`, the six comparisons, conversion and compound
+assignment between `scn ws L eL ρ l = scaled_integer<nest ws L, power<eL, ρ>>{l}` and `scn ws R eR ρ r` with
+**any** exponents equal the same operation on `sc L eL ρ l = scaled_integer<L, power<eL, ρ>>{l}` and `sc R eR ρ r`,
+put back into the nest (`renest ws`).  Hypotheses, all about types only: `PowWF T k ρ` = the instantiation
+`power_value<T, |k|, ρ>` the bare expression needs is well-formed (otherwise the bare expression does not compile;
+radix 2: `|k|` below the digits of the promoted type, `powWF_of_lt`; in general `powWF_iff`), and `ScaleDefined ws k ρ` =
+a conversion that scales *down* in a radix other than 2 does not meet a rounding_integer layer
+(`rounding_integer.h` declares that `scale` for radix 2 only).  `kernel_mixadd_nest`: the hand-written
+shift-and-add code is also what the mixed-exponent sum over a nest computes.
 -/
 namespace Cnl.C12
 open Cnl Cnl.Layered Cnl.Native
-open Cnl.ScaledP (sc)
+open Cnl.ScaledP (sc PowOk)
 open Cnl.KernelsP (shrConst mixaddHand HoldsProducts HoldsSums)
 
 /-- `+ - * / % & | ^` on two numbers of the same native nest -/
@@ -207,6 +223,92 @@ theorem kernel_mixadd_value (T : IntTy) (hT : 1 ≤ T.bits) (e1 e2 : Int) (h12 :
     (hres : (promote T).InRange (l + r * 2^(e2 - e1).toNat)) :
     Layered.bin .add (sc T e1 2 l) (sc T e2 2 r) = .ok (sc (promote T) e1 2 (l + r * 2^(e2 - e1).toNat)) :=
   KernelsP.mixadd_value T hT e1 e2 h12 l r hl hr hk hfit hres
+
+/-! ## Operations that change the exponent: `scale<k>` of a wrapper nest is `scale<k>` of the integer -/
+
+/-- `cnl::scale<k, ρ>` applied to a native wrapper nest of any depth is `scale<k, ρ>` of the innermost
+integer (`scaleInt`: `s * power_value` for `k ≥ 0`, `s / power_value` for `k < 0`), re-wrapped: same value,
+same promoted representation type, undefined exactly when the bare scaling is -/
+theorem scale_transparent (ws : List Layer) (hw : Wrappers ws) (T : IntTy) (k : Int) (ρ : Nat) (v : Int)
+    (hp : PowWF T k ρ) (hd : ScaleDefined ws k ρ) :
+    (ops ws.length).scale k ρ (nest ws T, v) = (scaleInt k ρ (T, v)).map (fun x => (nest ws x.1, x.2)) :=
+  scale_nest ws hw ws.length (Nat.le_refl _) T k ρ v hp hd
+
+/-- radix 2: `power_value<T, |k|, 2>` is well-formed when `|k|` is below the digits of the promoted type -/
+theorem powWF_of_lt (T : IntTy) (k : Int) (h : k.natAbs < (promote T).digits) : PowWF T k 2 := PowWF.of_lt h
+
+/-- `PowWF` is C01–C04's well-formedness predicate `PowOk` of the power -/
+theorem powWF_iff (T : IntTy) (k : Int) (ρ : Nat) (hρ : 2 ≤ ρ) (hρi : (ρ : Int) ≤ 2147483647) :
+    PowWF T k ρ ↔ PowOk T k.natAbs ρ := by
+  unfold PowWF
+  rw [isOk_iff]
+  exact ScaledP.powerValueInt_ok_iff T k.natAbs ρ hρ hρi
+
+/-- `+ - * / % & | ^` between scaled numbers over the same nest with any exponents: the same expression on
+scaled_integer over the bare integers (`+ - & | ^` align both operands to the smaller exponent with `scale`) -/
+theorem bin_exponents_transparent (ws : List Layer) (hw : Wrappers ws) (op : BinOp) (hs : isShift op = false)
+    (L R : IntTy) (eL eR : Int) (ρ : Nat) (l r : Int)
+    (hwf : Scaled.isZeroDegree op = true → eL ≠ eR → PowWF L (eL - min eL eR) ρ ∧ PowWF R (eR - min eL eR) ρ) :
+    Layered.bin op (scn ws L eL ρ l) (scn ws R eR ρ r)
+      = (Layered.bin op (sc L eL ρ l) (sc R eR ρ r)).map (renest ws) :=
+  bin_scn ws hw op hs L R eL eR ρ l r hwf
+
+/-- the six comparisons with any exponents (the coarser operand is converted to the finer exponent in the
+type `decltype(rep << constant<k>)`) -/
+theorem cmp_exponents_transparent (ws : List Layer) (hw : Wrappers ws) (op : CmpOp) (L R : IntTy) (eL eR : Int)
+    (ρ : Nat) (l r : Int) (hR : eL < eR → PowWF R (eR - eL) ρ) (hL : eR < eL → PowWF L (eL - eR) ρ) :
+    Layered.cmp op (scn ws L eL ρ l) (scn ws R eR ρ r) = Layered.cmp op (sc L eL ρ l) (sc R eR ρ r) :=
+  cmp_scn ws hw op L R eL eR ρ l r hR hL
+
+/-- conversion to another exponent and representation type (`static_cast<Dst>(scale<eS - eD>(rep))`) -/
+theorem convert_exponents_transparent (ws : List Layer) (hw : Wrappers ws) (D S : IntTy) (eD eS : Int) (ρ : Nat)
+    (v : Int) (hwf : eS ≠ eD → PowWF S (eS - eD) ρ ∧ ScaleDefined ws (eS - eD) ρ) :
+    Layered.cast (.sc (nest ws D) eD ρ) (scn ws S eS ρ v)
+      = (Layered.cast (.sc (.int D) eD ρ) (sc S eS ρ v)).map (renest ws) :=
+  cast_scn ws hw D S eD eS ρ v hwf
+
+/-- compound assignment `a op= b` with any exponents is `a = static_cast<A>(a op b)` over the bare integers:
+the intermediate has the common type `usualArith L R` at the exponent `resultExp op eL eR` and is rescaled
+(truncating toward zero) to `a`'s exponent -/
+theorem compound_exponents_transparent (ws : List Layer) (hw : Wrappers ws) (op : BinOp) (hs : isShift op = false)
+    (L R : IntTy) (eL eR : Int) (ρ : Nat) (l r : Int)
+    (hwf : Scaled.isZeroDegree op = true → eL ≠ eR → PowWF L (eL - min eL eR) ρ ∧ PowWF R (eR - min eL eR) ρ)
+    (hc : Scaled.resultExp op eL eR ≠ eL →
+      PowWF (usualArith L R) (Scaled.resultExp op eL eR - eL) ρ ∧ ScaleDefined ws (Scaled.resultExp op eL eR - eL) ρ) :
+    Layered.compound op (scn ws L eL ρ l) (scn ws R eR ρ r)
+      = (Layered.compound op (sc L eL ρ l) (sc R eR ρ r)).map (renest ws) :=
+  compound_scn ws hw op hs L R eL eR ρ l r hwf hc
+
+/-- the mixed-exponent sum over a nest is the hand-written shift-and-add code on the innermost integers
+(`kernel_mixadd` through `bin_exponents_transparent`) -/
+theorem kernel_mixadd_nest (ws : List Layer) (hw : Wrappers ws) (T : IntTy) (hT : 1 ≤ T.bits) (e1 e2 : Int) (l r : Int)
+    (hl : T.InRange l) (hr : T.InRange r) (hk : (e2 - e1).natAbs < T.digits) :
+    Layered.bin .add (scn ws T e1 2 l) (scn ws T e2 2 r)
+      = (mixaddHand T e1 e2 l r).map (fun v => scn ws v.1 (min e1 e2) 2 v.2) := by
+  have hd := promote_digits_le hT
+  rw [bin_exponents_transparent ws hw .add rfl T T e1 e2 2 l r
+      (fun _ _ => ⟨PowWF.of_lt (by omega), PowWF.of_lt (by omega)⟩),
+    kernel_mixadd T hT e1 e2 l r hl hr hk, map_map]
+  rfl
+
+/-! Non-vacuity of the exponent-changing theorems: concrete nests, both directions, undefined cases, and the
+necessity of `PowWF` (where the bare instantiation is ill-formed the wrapper may still compile and then
+computes something else: `1 / (1 << 31)` in `int`). -/
+example : Wrappers [.ov, .rd] ∧ PowWF i8 3 2 ∧ PowWF i16 (-30) 2 ∧ ¬ PowWF i32 31 2 ∧ PowWF i8 2 10 ∧ ¬ PowWF i32 10 10 := by decide +kernel
+example : ScaleDefined [.ov, .rd] (-3) 2 ∧ ScaleDefined [.ov] (-3) 10 ∧ ¬ ScaleDefined [.ov, .rd] (-3) 10 := by decide +kernel
+example : (ops 2).scale 3 2 (nest [.ov, .rd] i8, 5) = .ok (nest [.ov, .rd] i32, 40) := by decide +kernel
+example : (ops 2).scale (-3) 2 (nest [.ov, .rd] i8, -50) = .ok (nest [.ov, .rd] i32, -6) := by decide +kernel
+example : (ops 1).scale 2 10 (nest [.ov] u8, 255) = .ok (nest [.ov] i32, 25500) := by decide +kernel
+example : (ops 1).scale 30 2 (nest [.ov] i32, 7) = .ub .signedOverflow ∧ scaleInt 30 2 (i32, 7) = .ub .signedOverflow := by decide +kernel
+example : (ops 1).scale (-31) 2 (nest [.rd] i32, 1) = .ok (nest [.rd] i32, 0) ∧ ¬ PowWF i32 (-31) 2 := by decide +kernel
+example : Layered.bin .add (scn [.ov, .rd] i8 (-4) 2 100) (scn [.ov, .rd] i16 (-1) 2 (-3))
+    = .ok (scn [.ov, .rd] i32 (-4) 2 76) := by decide +kernel
+example : Layered.bin .sub (scn [.rd] u32 0 2 1) (scn [.rd] u32 (-8) 2 257) = .ok (scn [.rd] u32 (-8) 2 4294967295) := by decide +kernel
+example : Layered.cmp .lt (scn [.ov] i8 (-6) 2 (-128)) (scn [.ov] u8 (-1) 2 3) = .ok true := by decide +kernel
+example : Layered.cast (.sc (nest [.rd, .ov] i8) (-1) 2) (scn [.rd, .ov] i16 (-4) 2 (-1001)) = .ok (scn [.rd, .ov] i8 (-1) 2 (-125)) := by decide +kernel
+example : Layered.compound .add (scn [.ov] i8 (-1) 2 5) (scn [.ov] i8 (-4) 2 7) = .ok (scn [.ov] i8 (-1) 2 5) := by decide +kernel
+example : Layered.compound .mul (scn [.ov, .rd] i16 (-8) 2 640) (scn [.ov, .rd] i16 (-8) 2 (-384))
+    = .ok (scn [.ov, .rd] i16 (-8) 2 (-960)) := by decide +kernel
 
 /-! Non-vacuity: concrete instances (a three-deep nest over 8/16-bit reps). -/
 example : Layered.bin .add (nest [.sc 2, .ov, .rd] i8, 100) (nest [.sc 2, .ov, .rd] i16, 28)
